@@ -285,6 +285,31 @@ pub fn drive(args: &HashMap<String, String>) {
                 }
             }
         }
+        // operator-in-parentheses forms ((X) A B): X is applied to the operands *as written*.  Operands that read as
+        // paths, quotes, applies must survive the optimiser untouched, at the top, inside a cons and inside the quoted
+        // body of an apply whose argument expression is not the whole environment
+        {
+            let a = |b: u8| V::A(vec![b]);
+            let q = |x: V| V::cons(V::A(vec![1]), x);
+            let operands = vec![a(2), a(5), q(V::int(7)), V::list(&[a(2), q(a(5)), a(1)]), V::list(&[a(5), V::list(&[a(4), a(1), a(2)])]), V::nil()];
+            for (op, improper) in [(16u8, false), (4, false), (9, false), (16, true), (4, true)] {
+                let head = if improper { V::cons(a(op), V::int(9)) } else { V::list(&[a(op)]) };
+                for (i, x) in operands.iter().enumerate() {
+                    let y = &operands[(i + 2) % operands.len()];
+                    let form = V::list(&[head.clone(), x.clone(), y.clone()]);
+                    let progs = vec![
+                        form.clone(),
+                        V::list(&[a(4), form.clone(), a(1)]),
+                        V::list(&[a(2), q(form.clone()), a(1)]),
+                        V::list(&[a(2), q(form.clone()), V::list(&[a(4), q(V::int(100)), a(1)])]),
+                        V::list(&[a(2), q(V::list(&[a(4), form.clone(), a(2)])), V::list(&[a(4), q(V::int(100)), a(1)])]),
+                    ];
+                    for prog in progs {
+                        cases.push(json!({"prog": prog.to_json(), "env": g.list_env(4).to_json()}));
+                    }
+                }
+            }
+        }
         // variadic operators with 1 .. 70 arguments (argument references are built by position)
         for nargs in [1usize, 2, 7, 31, 32, 33, 61, 62, 63, 64, 65, 70] {
             for (op, last) in [(16u8, V::int(3)), (14, V::A(vec![7])), (34, V::nil()), (33, V::int(1)), (24, V::int(5)), (11, V::A(vec![9]))] {
